@@ -1,6 +1,24 @@
 """Per-property configuration of the checks (what to build, which theorems to audit, which
 correspondence components to run).  See DESIGN.md §6."""
 
+import os, re
+_LEAN = os.path.join(os.path.dirname(os.path.abspath(__file__)), "..", "lean")
+
+def conform(*mods):
+    """(modules, theorem names) of the T1 fact modules BB/Conform/<mod>.lean"""
+    names = []
+    for m in mods:
+        src = open(os.path.join(_LEAN, "BB", "Conform", m + ".lean")).read()
+        names += [f"BB.Conform.{m}.{n}" for n in re.findall(r"^theorem\s+(\S+)", src, re.M)]
+    return ["BB.Conform." + m for m in mods], names
+
+def with_conform(spec, *mods):
+    ms, ns = conform(*mods)
+    spec["lean_targets"] = spec["lean_targets"] + ms
+    spec["theorems"] = spec["theorems"] + ns
+    spec["uses_extract"] = True
+    return spec
+
 def has(*tags):
     want = set(tags)
     return lambda t: bool(want & t)
@@ -170,3 +188,9 @@ PROPS = {
         open_statements=["instance_stopped_when_unheld as a leadsTo theorem under fairness (only the no-stuck-state form unheld_not_stuck is proved)"],
     ),
 }
+
+with_conform(PROPS["C01"], "Buffer")
+with_conform(PROPS["C02"], "Buffer")
+with_conform(PROPS["C03"], "Buffer")
+with_conform(PROPS["C13"], "Channel")
+with_conform(PROPS["C16"], "Ctx")
